@@ -38,10 +38,7 @@ pub struct ParserLog {
 }
 
 pub fn build_feature(spec: &FeatureSpec) -> Result<gherkin::Feature, String> {
-    let text = spec.gherkin();
-    let mut f = gherkin::Feature::parse(&text, gherkin::GherkinEnv::default())
-        .map_err(|e| format!("harness: generated gherkin does not parse: {e}\n{text}"))?;
-    f.path = spec.path.as_ref().map(PathBuf::from);
+    let (f, _) = spec.build();
     f.expand_examples().map_err(|e| format!("harness: expansion failed: {e}"))
 }
 
